@@ -160,3 +160,25 @@ let parse_path c : frag list =
   let t = word c in
   if t <> "p" then failwith "path expected";
   parse_frags c
+
+(* asm plan arguments: (l <jv>) | (p frags...) | (c <fname> args...) *)
+let fname_of = function
+  | "asm" -> FnAsm | "set" -> FnSet | "setall" -> FnSetall | "del" -> FnDel | "delall" -> FnDelall
+  | "get" -> FnGet | "getall" -> FnGetall | "sum" -> FnSum | "dif" -> FnDif | "product" -> FnProduct
+  | "quotient" -> FnQuotient | "mod" -> FnMod | "eq" -> FnEq | "neq" -> FnNeq | "lt" -> FnLt | "lte" -> FnLte
+  | "gt" -> FnGt | "gte" -> FnGte | "and" -> FnAnd | "or" -> FnOr | "not" -> FnNot | "cond" -> FnCond
+  | "list" -> FnList | "quote" -> FnQuote | "nth" -> FnNth | "size" -> FnSize | "reverse" -> FnReverse
+  | "append" -> FnAppend | "include" -> FnInclude | "array?" -> FnIsArray | "bool?" -> FnIsBool | "map?" -> FnIsMap
+  | "null?" -> FnIsNull | "num?" -> FnIsNum | "string?" -> FnIsString | "int" -> FnInt | "each" -> FnEach
+  | s -> failwith ("bad asm function " ^ s)
+
+let rec parse_arg c : arg =
+  expect c '(';
+  let tag = word c in
+  match tag with
+  | "l" -> let v = parse_jv c in expect c ')'; ALit v
+  | "p" -> APath (parse_frags c)
+  | "c" -> skip_ws c; let f = fname_of (word c) in
+      let rec args acc = skip_ws c; if peek c = ')' then (adv c; List.rev acc) else args (parse_arg c :: acc) in
+      ACall (f, args [])
+  | t -> failwith ("bad arg " ^ t)
